@@ -527,9 +527,13 @@ fn only_run<P: Property>(p: &P, opt: &Options, index: u64) -> i32 {
     let plans = (0..nv)
         .map(|_| (Vector::default(), Some((rng.fork(), swarm.clone()))))
         .collect();
+    let t0 = Instant::now();
     let ex = execute_vectors(p, &sc, plans);
+    let t_exec = t0.elapsed();
     let mut stats = Stats::default();
+    let t1 = Instant::now();
     let violations = p.judge(&sc, &ex.runs, &mut stats);
+    out(&format!("timing: execute {} ms, judge {} ms", t_exec.as_millis(), t1.elapsed().as_millis()));
     for (i, r) in ex.reports.iter().enumerate() {
         out(&format!("vector {} ticks {} orders {:?} draws {}", i, r.ticks, r.consumed.orders, r.consumed.draws.len()));
     }
@@ -613,6 +617,7 @@ pub fn check<P: Property>(p: &P, opt: &Options) -> i32 {
         // Runs are handed out in fixed batches with a barrier after each; the search stops after
         // the first batch that contains a violating run. Batch boundaries are fixed, so which runs
         // were executed (and the lowest violating index) does not depend on thread timing.
+        let slow_debug = std::env::var("VERIF_SLOW").is_ok();
         let batch: u64 = 2_000;
         let mut batch_start = 0u64;
         while batch_start < total {
@@ -644,8 +649,12 @@ pub fn check<P: Property>(p: &P, opt: &Options) -> i32 {
                     if i >= batch_end {
                         break;
                     }
-                    inflight.lock().unwrap().insert(w, (i, Instant::now()));
+                    let t0 = Instant::now();
+                    inflight.lock().unwrap().insert(w, (i, t0));
                     one_run(p, opt, i, &mut local);
+                    if slow_debug && t0.elapsed().as_millis() > 500 {
+                        eprintln!("slow run {} took {} ms", i, t0.elapsed().as_millis());
+                    }
                     run_times.fetch_add(1, Ordering::Relaxed);
                 }
                 inflight.lock().unwrap().remove(&w);
